@@ -71,8 +71,11 @@ int gf_invert_matrix(unsigned char *in_mat, unsigned char *out_mat, const int n)
     int i, j, k;
     unsigned char temp;
 
-    isal_ref_invert_calls++;
-    if (isal_ref_fail_invert_at > 0 && --isal_ref_fail_invert_at == 0)
+    /* relaxed atomics: the counters are monitor state and must not look like a
+     * race of the code under test (nor add a happens-before edge) */
+    __atomic_fetch_add(&isal_ref_invert_calls, 1, __ATOMIC_RELAXED);
+    if (__atomic_load_n(&isal_ref_fail_invert_at, __ATOMIC_RELAXED) > 0 &&
+        __atomic_sub_fetch(&isal_ref_fail_invert_at, 1, __ATOMIC_RELAXED) == 0)
         return -1;
 
     for (i = 0; i < n * n; i++) out_mat[i] = 0;
@@ -126,7 +129,7 @@ void ec_init_tables(int k, int rows, unsigned char *a, unsigned char *g_tbls)
 void ec_encode_data(int len, int k, int rows, unsigned char *g_tbls,
                     unsigned char **data, unsigned char **coding)
 {
-    isal_ref_encode_calls++;
+    __atomic_fetch_add(&isal_ref_encode_calls, 1, __ATOMIC_RELAXED);
     for (int l = 0; l < rows; l++) {
         for (int i = 0; i < len; i++) {
             unsigned char s = 0;
